@@ -18,6 +18,13 @@ use vstd::prelude::*;
 verus! {
 //@include ../_shared/bytes.rs
 
+// std stand-ins that only matter for CHANGED code (0 hits on /repo): they let an edit that swallows an error reach
+// the verifier.  Contracts are those of std.
+pub assume_specification<T, E>[Result::<T, E>::unwrap_or](x: Result<T, E>, d: T) -> (v: T)
+    ensures x matches Ok(y) ==> v == y, x is Err ==> v == d;
+pub assume_specification<T: Default, E>[Result::<T, E>::unwrap_or_default](x: Result<T, E>) -> (v: T)
+    ensures x matches Ok(y) ==> v == y;
+
 /// shim for byteordered::Endianness (external crate, a plain 2-variant enum)
 #[derive(Clone, Copy)]
 pub enum Endianness { Big, Little }
@@ -277,6 +284,14 @@ pub fn zoom_rfind_mut(v: &mut Vec<ZoomHeader>, reduction_level: u32) -> (r: Opti
         None => None,
     }
 }
+/// any OTHER `V.iter_mut()[.rev()].find(|h| <some predicate>)` (0 hits on /repo: an edit that changes the
+/// predicate): SOME element is handed out or none - which one is not promised, so the edit is judged by the contract
+#[verifier::external_body]
+pub fn zoom_find_mut_any(v: &mut Vec<ZoomHeader>, reduction_level: u32) -> (r: Option<&mut ZoomHeader>)
+    ensures
+        r is None ==> final(v)@ == old(v)@,
+        r matches Some(h) ==> exists|i: int| 0 <= i < old(v)@.len() && *h == old(v)@[i] && final(v)@ == old(v)@.update(i, *final(h)),
+{ unimplemented!() }
 
 // ---------------- the reader: `Self: BBIReadInternal` with `Self::Read = VRead` ----------------
 /// stands for `BigWigRead<R>` / `BigBedRead<R>` as seen through `trait BBIReadInternal`: `reader_and_info()`
@@ -346,6 +361,7 @@ impl VBbi {
 //@sub /info\s*\.zoom_headers\s*\.iter_mut\(\)\s*\.find\(\|h\| h\.reduction_level == reduction_level\)/ => zoom_find_mut(&mut info.zoom_headers, reduction_level) min=0
 //@sub /info\s*\.zoom_headers\s*\.iter_mut\(\)\s*\.rev\(\)\s*\.find\(\|h\| h\.reduction_level == reduction_level\)/ => zoom_rfind_mut(&mut info.zoom_headers, reduction_level) min=0
 //@sub /info\s*\.zoom_headers\s*\.iter_mut\(\)\s*\.rfind\(\|h\| h\.reduction_level == reduction_level\)/ => zoom_rfind_mut(&mut info.zoom_headers, reduction_level) min=0
+//@sub /info\s*\.zoom_headers\s*\.iter_mut\(\)(?:\s*\.rev\(\))?\s*\.r?find\(\|h\| [^|;]*?\)\s*\{/ => zoom_find_mut_any(&mut info.zoom_headers, reduction_level) { min=0
 //@sub /\.seek\((?:io::)?SeekFrom::Start\(([^;]*?)\)\)/ => .seek_start(\1) min=0
 //@sub /(\b\w+\s*\.seek_start\([^;]*?\))\s*\.map_err\(\|e\| (\w+)::IoError\(e\)\)\?;/ => match \1 { Ok(v__) => v__, Err(e) => return Err(\2::IoError(e)) }; min=0
 //@sub /(read_cir_tree_header\([^;]*?\))\s*\.map_err\(\|e\| match e \{(.*?)\}\)\?;/ => match \1 { Ok(v__) => v__, Err(e) => return Err(match e {\2}) }; min=0
